@@ -273,6 +273,30 @@ def closed_family(depth):
         for b in ts:
             for nm in ('x', 'z'):
                 out.append(Abs(nm, f['A'], b))
+    # forms the kernel hashes / compares through special cases: conjunction and disjunction chains, let-chains (whose binders
+    # carry suggested names that equality must ignore)
+    from kernel.type import TFun
+    from kernel.term import Const, Bound
+    A, BT = f['A'], f['BT']
+    conj, disj = Const('conj', TFun(BT, BT, BT)), Const('disj', TFun(BT, BT, BT))
+    atoms = top[repr(BT)][1][:3]
+    for a in atoms:
+        for b in atoms[:2]:
+            for c in atoms[:2]:
+                out += [conj(a, conj(b, c)), disj(a, disj(b, c)), conj(a, disj(b, c)), conj(conj(a, b), c)]
+    let = Const('Let', TFun(A, TFun(A, BT), BT))
+    vals = top[repr(A)][1][:2]
+    bodies1 = gen_terms(1, env=(A,))[repr(BT)][1]
+    bodies1 = [b for b in bodies1 if b.is_comb() and b.arg == Bound(0)][:2] + bodies1[:1]
+    bodies2 = gen_terms(1, env=(A, A))[repr(BT)][1]
+    bodies2 = [b for b in bodies2 if b.is_comb() and b.arg in (Bound(0), Bound(1))][:3]
+    for v in vals:
+        for nm in ('x', 'z'):
+            for b in bodies1:
+                out.append(let(v, Abs(nm, A, b)))
+            for nm2 in ('x', 'w'):
+                for b2 in bodies2:
+                    out.append(let(v, Abs(nm, A, let(vals[0], Abs(nm2, A, b2)))))
     return out
 
 
